@@ -196,6 +196,9 @@ func c05Cfgs() []*bsCfg {
 			Ops: []bsOp{S(1, 1), S(2, 1), D(1)}},
 		{Name: "m1-pool-ttl", MaxSize: 1, ChanSize: 2, BufSize: 2, Pool: true, NClients: 2, OpsPer: 2, Depth: 9, Ticks: 2, TickNs: 1100 * 1e6,
 			Ops: []bsOp{T(1, 1, sec), S(2, 1), D(1)}},
+		// a pooled entry object that carried a TTL is reused by a Set without TTL on another key
+		{Name: "m1-pool-reuse", MaxSize: 1, ChanSize: 2, BufSize: 2, Pool: true, NClients: 1, OpsPer: 3, Depth: 11, Ticks: 1, TickNs: 1100 * 1e6,
+			Ops: []bsOp{T(1, 1, sec), S(2, 1), S(3, 1)}},
 	}
 }
 
@@ -209,6 +212,12 @@ func TestVerif_C05(t *testing.T) {
 		}
 		if d := env.Int("depth", 0); d > 0 {
 			cfg.Depth = d
+		}
+		if n := env.Int("clients", 0); n > 0 {
+			cfg.NClients = n
+		}
+		if n := env.Int("ops", 0); n > 0 {
+			cfg.OpsPer = n
 		}
 		b := &bsSearch{cfg: cfg, res: res, env: env, drained: c05Drained(res)}
 		b.run()
